@@ -1152,7 +1152,7 @@ def model2_stream(chk, pid, items):
         chk.broken.append(('model-evaluation-stage2', str(e)[-600:])); return
     try:       # the decidable hypotheses of the Stage-2 theorems (Props/C01-C03 'multi' theorems), evaluated for every compared network
         for (c, impl), g in zip(keep, sim2lib.eval_good2([(a[0], a[1]) for a in args], name=pid.lower() + 'g2')):
-            chk.count('multi:stage2-theorem-hypotheses good2b=%s cons2b=%s goodB2b=%s onceB2b=%s' % g)
+            chk.count('multi:stage2-theorem-hypotheses good2b=%s cons2b=%s goodB2b=%s onceB2b=%s supC2b=%s priceC2b=%s ratesC2b=%s' % g)
     except Exception as e:
         chk.broken.append(('evaluation of good2b', str(e)[-400:]))
     nskip = nslow = 0
